@@ -25,8 +25,10 @@ Record dcli : Type := mkDcli {
   dc_nl : nat;              (* number of LF bytes received from the client so far = complete lines received *)
   dc_lines : nat;           (* lines handed to _parse_input so far *)
   dc_eof : bool;            (* a read has returned end-of-file (or an error) on this descriptor *)
-  dc_bad : bool;            (* the descriptor misbehaved: a write failed (queued output was dropped), or bytes arrived
-                               after end-of-file; nothing is claimed about the stream of such a client afterwards *)
+  dc_bad : bool;            (* the stream to this client is no longer the formatted output: a write failed (queued output
+                               was dropped), bytes arrived after end-of-file, or more than MAX_CLIENT_BUF bytes were owed
+                               to a client that does not read (the oldest were overwritten); nothing is claimed about
+                               the stream of such a client afterwards *)
   dc_sent : text            (* every byte written to the descriptor so far *)
 }.
 Fixpoint count_lf (s : text) : nat := match s with [] => O | c :: r => ((if N.eqb c LF then 1 else 0) + count_lf r)%nat end.
@@ -69,9 +71,16 @@ Inductive sysev : Type :=
 
 Record dout : Type := mkDout { do_evs : list sysev; do_tmo : option Z }.
 
+(* cbuf_write into a client buffer (cbuf_create(MIN_CLIENT_BUF, MAX_CLIENT_BUF), default policy CBUF_WRAP_MANY): the buffer
+   grows up to MAX_CLIENT_BUF; beyond that the OLDEST unconsumed bytes are overwritten.  Returns the new content and
+   whether anything was dropped *)
+Definition cbuf_put (buf new : text) : text * bool :=
+  let t := buf ++ new in
+  if MAX_CLIENT_BUF <? Z.of_nat (length t) then (lastn (Z.to_nat MAX_CLIENT_BUF) t, true) else (t, false).
+(* _client_printf: whatever the client layer appended to cl_out goes through cbuf_write into c->to *)
 Definition set_dc (c : client) (x : dcli) : dcli :=
-  (* whatever the client layer appended to cl_out goes into c->to as well *)
-  mkDcli c (dc_from x) (dc_to x ++ skipn (length (cl_out (dc x))) (cl_out c)) (dc_nl x) (dc_lines x) (dc_eof x) (dc_bad x) (dc_sent x).
+  let r := cbuf_put (dc_to x) (skipn (length (cl_out (dc x))) (cl_out c)) in
+  mkDcli c (dc_from x) (fst r) (dc_nl x) (dc_lines x) (dc_eof x) (dc_bad x || snd r) (dc_sent x).
 Definition set_quit (x : dcli) : dcli :=
   let c := dc x in mkDcli (mkClient (cl_id c) (cl_cmd c) (cl_tele c) (cl_exp c) true (cl_out c)) (dc_from x) (dc_to x) (dc_nl x) (dc_lines x)
                           (dc_eof x) (dc_bad x) (dc_sent x).
@@ -168,8 +177,8 @@ Section D.
         let x1 := if ci_in ci then
                     match ci_read ci with
                     | None | Some [] => set_eof (set_quit x)
-                    | Some b => mkDcli (dc x) (dc_from x ++ b) (dc_to x) (dc_nl x + count_lf b) (dc_lines x)
-                                       (dc_eof x) (dc_bad x || dc_eof x) (dc_sent x)
+                    | Some b => mkDcli (dc x) (fst (cbuf_put (dc_from x) b)) (dc_to x) (dc_nl x + count_lf b) (dc_lines x)
+                                       (dc_eof x) (dc_bad x || dc_eof x) (dc_sent x)      (* cbuf_write_from_fd(c->from) *)
                     end
                   else x in
         let '(x2, w) := if ci_out ci then
